@@ -1946,6 +1946,7 @@ dnsname_to_labels(u8 *const buf, size_t buf_len, off_t j,
 				  const char *name, const size_t name_len,
 				  struct dnslabel_table *table) {
 	const char *end = name + name_len;
+	const off_t name_start = j;
 	int ref = 0;
 	u16 t_;
 
@@ -2010,6 +2011,8 @@ dnsname_to_labels(u8 *const buf, size_t buf_len, off_t j,
 	/* It's possible that the name ended in a . */
 	/* in which case the zero is already there */
 	if (!j || buf[j-1]) buf[j++] = 0;
+	/* RFC 1035 2.3.4: at most 255 octets on the wire */
+	if (j - name_start > 255) return -2;
 	return j;
  overflow:
 	return (-2);
